@@ -65,7 +65,8 @@ type PanicInfo struct {
 // External lets the harness offer non-task actions (client operations, fault events) to the scheduler.
 type External interface {
 	// Enabled returns opaque ids of actions that may fire now, in a deterministic order.
-	Enabled() []int
+	// idle is true when no task is runnable (every consequence of earlier actions has played out).
+	Enabled(idle bool) []int
 	Fire(id int)
 	// NextDeadline: simulated time from now until some action becomes enabled by itself (client timeout, delayed op).
 	NextDeadline() (time.Duration, bool)
@@ -356,7 +357,7 @@ func (w *World) Run(settle time.Duration, stop func() bool) RunResult {
 		}
 		var ext []int
 		if w.Ext != nil {
-			ext = w.Ext.Enabled()
+			ext = w.Ext.Enabled(len(cand) == 0)
 		}
 		if len(cand)+len(ext) == 0 {
 			if stop != nil && stop() {
